@@ -25,13 +25,29 @@ const SYMS: [&str; 18] = [
 ];
 const OPERANDS: [&str; 8] = ["a", "b", "c", "d", "e", "g", "h", "i"];
 
+/// Operands that do not start with an identifier: bare bracket forms (a projection / index /
+/// flatten / filter applied to the current node), `*`, `@`, literals, groups, multi-selects, calls.
+const STARTS: [&str; 14] = ["[]", "[?x]", "[*]", "[0]", "[1:]", "*", "@", "`1`", "'s'", "(b)", "[c]", "{k:d}", "f(e)", "a"];
+
 /// Build the expression for a sequence of operator symbols.
 pub fn soup(seq: &[usize]) -> String {
+    soup_with(seq, None)
+}
+
+/// As `soup`, but operands that stand at the start of an operand position (the first one and
+/// those after a binary operator, not those after a dot) are taken from `STARTS`, rotated by `rot`.
+pub fn soup_with(seq: &[usize], rot: Option<usize>) -> String {
     let mut s = String::new();
     let mut lead_nots = 0;
     let mut pending = 0;
     let mut next_operand = 1;
-    let mut body = String::from(OPERANDS[0]);
+    let start = |k: usize| -> &'static str {
+        match rot {
+            Some(r) => STARTS[(r + 5 * k) % STARTS.len()],
+            None => OPERANDS[k % OPERANDS.len()],
+        }
+    };
+    let mut body = String::from(start(0));
     for &k in seq {
         let sym = SYMS[k];
         match sym {
@@ -44,7 +60,7 @@ pub fn soup(seq: &[usize]) -> String {
                     body.push('!');
                 }
                 pending = 0;
-                body.push_str(OPERANDS[next_operand % OPERANDS.len()]);
+                body.push_str(start(next_operand));
                 next_operand += 1;
             }
             "." => {
@@ -220,6 +236,25 @@ pub fn run(args: &Args) {
         let text = soup(&seq);
         let (o, tree) = compare_tree(&mut rep, &text, "enum-soup");
         enumerated += 1;
+        // the same operator sequence in the places where an expression ends at a delimiter of its
+        // own: the body of an expression reference, a call argument, members of multi-selects, a
+        // filter predicate, a parenthesis that is itself continued
+        {
+            let text2 = soup_with(&seq, Some((i % 14) as usize));
+            compare_tree(&mut rep, &text2, "enum-soup-bracket-operands");
+        }
+        if o != Outcome::NotComparable {
+            let ctx = match i % 7 {
+                0 => format!("f(&{}, z)", text),
+                1 => format!("f(z, &{})", text),
+                2 => format!("f({}, z)", text),
+                3 => format!("[z, {}]", text),
+                4 => format!("{{k: {}, j: z}}", text),
+                5 => format!("z[?{}].y", text),
+                _ => format!("({}).y[0]", text),
+            };
+            compare_tree(&mut rep, &ctx, "enum-soup-in-context");
+        }
         if o != Outcome::NotComparable && op_kinds(&text) >= 2 {
             rep.nontrivial(fnv(text.as_bytes()));
             if i % 1009 == 0 {
